@@ -3,13 +3,13 @@ import Spec.Val
 import Drivers.Common
 /-! `vm_c06`: line protocol over `Model.Heap` / `Spec.Val`.
 
-  <mode>\t<nv>\t<tokens>     mode: fixed | pinned | spec | cfg:<r><c><i> (three 0/1 flags)
+  <mode>\t<nv>\t<tokens>     mode: fixed | pinned | elided | spec | cfg:<r><c><i>[<b>] (0/1 flags)
   tokens (space separated, prefix notation, statements separated by `;`):
     stmt  := setVar x RV | setProp x p RV | setIdx PLACE KOPT RV | unset PLACE KEY
            | meth PLACE M | new x | clone x y | ref x y
     PLACE := v x | p x p | i PLACE KEY
     KEY   := ki n | ks n          KOPT := ka | KEY
-    RV    := int n | null | lit LIT | rd PLACE
+    RV    := int n | null | lit LIT | rd PLACE | call PLACE
     LIT   := li n | ln | lr PLACE | la cnt (LKEY LIT)*        LKEY := kp | ki n | ks n
     M     := push n | pop | shift | unshift n | sort
   → one rendering of all names per statement, joined by `|`; a statement outside the
@@ -80,6 +80,7 @@ def pRV : P RV
   | "null" :: r => some (.null, r)
   | "lit" :: r => (pLit r).map (fun (l, r) => (.lit l, r))
   | "rd" :: r => (pPlace r).map (fun (p, r) => (.rd p, r))
+  | "call" :: r => (pPlace r).map (fun (p, r) => (.call p, r))
   | _ => none
 
 def pMeth : P Meth
@@ -212,11 +213,13 @@ def parseCfg (m : String) : Option Cfg :=
   match m with
   | "fixed" => some .fixed
   | "pinned" => some .pinned
+  | "elided" => some .elided
   | _ =>
     match m.splitOn ":" with
     | ["cfg", fl] =>
       match fl.toList with
-      | [a, b, c] => some ⟨a == '1', b == '1', c == '1'⟩
+      | [a, b, c] => some ⟨a == '1', b == '1', c == '1', true⟩
+      | [a, b, c, d] => some ⟨a == '1', b == '1', c == '1', d == '1'⟩
       | _ => none
     | _ => none
 
